@@ -38,8 +38,83 @@ def _checksum():
     return h.hexdigest()
 
 
+class NoProgress(BaseException):
+    """raised by the loop guard inside the offending repository function (logical budget, not wall clock)."""
+
+
+class LoopGuard:
+    """Logical-progress monitor: sys.monitoring JUMP events, enabled ONLY on the code objects of the integrators' `__call__`
+    functions (their retry / step-doubling / step-halving loops), count backward jumps per activation. Those loops are bounded by
+    design (retry cap 64; halving a float64 from 1 to the smallest subnormal takes 1074 iterations), so BUDGET backward jumps inside
+    one activation means the loop is not going to end: NoProgress is raised inside the function, with the repository frame on the stack."""
+    TOOL = 4
+    BUDGET = 20000
+
+    def __init__(self):
+        self.codes = {}
+        self.counts = {}
+        self.activations = 0
+        self.max_seen = 0
+        self._on = False
+
+    def start(self):
+        if not hasattr(sys, "monitoring"):
+            return
+        import desolver.integrators as I
+        from desolver.integrators import integrator_types as IT
+        funcs = {}
+        try:
+            rc = I.generate_richardson_integrator(I.RK4Solver, richardson_iter=2)
+            funcs["RichardsonExtrapolatedIntegrator.__call__"] = rc.__call__
+            funcs["RichardsonExtrapolatedIntegrator.adaptive_richardson"] = rc.adaptive_richardson
+        except Exception:
+            pass
+        for cname in ("RungeKuttaIntegrator", "ExplicitSymplecticIntegrator", "TableauIntegrator"):
+            c = getattr(IT, cname, None)
+            if c is not None and "__call__" in vars(c):
+                funcs[cname + ".__call__"] = vars(c)["__call__"]
+        mon = sys.monitoring
+        try:
+            mon.use_tool_id(self.TOOL, "vf-loopguard")
+        except ValueError:
+            return
+        for name, f in funcs.items():
+            code = getattr(f, "__code__", None)
+            if code is not None:
+                self.codes[code] = name
+                self.counts[code] = 0
+        counts, codes = self.counts, self.codes
+
+        def on_start(code, offset):
+            if code in counts:
+                self.activations += 1
+                counts[code] = 0
+
+        def on_jump(code, src, dst):
+            if dst < src and code in counts:
+                counts[code] += 1
+                if counts[code] > self.max_seen:
+                    self.max_seen = counts[code]
+                if counts[code] > self.BUDGET:
+                    counts[code] = 0
+                    raise NoProgress("%d backward jumps inside one activation of %s" % (self.BUDGET, codes[code]))
+
+        mon.register_callback(self.TOOL, mon.events.PY_START, on_start)
+        mon.register_callback(self.TOOL, mon.events.JUMP, on_jump)
+        for code in self.codes:
+            mon.set_local_events(self.TOOL, code, mon.events.PY_START | mon.events.JUMP)
+        self._on = True
+
+    def report(self):
+        return {"loop_guard_activations": self.activations, "loop_guard_max_backward_jumps": self.max_seen, "loop_guard_functions": len(self.codes)}
+
+
+_loop_guard = LoopGuard()
+
+
 def install_global():
     _state["checksum0"] = _checksum()
+    _loop_guard.start()
 
 
 def global_report():
@@ -47,6 +122,10 @@ def global_report():
     c1 = _checksum()
     cnt = dict(_state["counters"])
     cnt["class_state_checksums"] = 1
+    for k, v in _loop_guard.report().items():
+        if k != "loop_guard_max_backward_jumps":
+            cnt[k] = v
+    _state["loop_guard_max"] = _loop_guard.max_seen
     if c1 != _state["checksum0"]:
         viol.append({"clause": "class_state_mutated", "mechanism": "tableau_or_registry_changed",
                      "features": {}, "detail": {"before": _state["checksum0"], "after": c1}})
